@@ -1026,6 +1026,116 @@ class ConcatSet:
             shutil.rmtree(t, ignore_errors=True)
 
 
+class OpenConcatSet:
+    """k HDF5 v3 (or v2) FILES with different start times opened in one go with katdal.open([...]) - the documented way
+    of building a concatenation (the parts are constructed by katdal itself, in the order the file names are given,
+    which is shuffled).  The structure of each part is recorded from a separate katdal.open(<one file>)."""
+
+    def __init__(self, cseed):
+        import katdal
+        from fixtures import v4
+        from fixtures.mkv2 import mkv2
+        from fixtures.mkv3 import mkv3
+        self.rng = rng = random.Random(cseed)
+        self.fmt = fmt = rng.choice([3, 3, 2])
+        k = rng.choice([2, 2, 3])
+        self.evs = [gen_events(rng, fmt) for _ in range(k)]
+        self.offs, off = [], 0
+        for ev in self.evs:
+            self.offs.append(off)
+            off += ev['T'] + rng.choice([0, 1, 3, 10])
+        self.order = list(range(k))
+        rng.shuffle(self.order)
+        self.tmp = v4.scratch_dir('c03')
+        self.tmps = [self.tmp]
+        self.presel = [[] for _ in range(k)]
+        self.hidden = [dict(scans=0, compscans=0) for _ in range(k)]
+        self.files, self.pristine, self._single = [], [], []
+        okw = dict(centre_freq=1284e6) if fmt == 3 else {}
+        try:
+            for i, (ev, off) in enumerate(zip(self.evs, self.offs)):
+                t0 = (1500000000.0 if fmt == 3 else 1300000000.0) + 2.0 * off
+                fn = os.path.join(self.tmp, '%d.h5' % int(t0))
+                (mkv3 if fmt == 3 else mkv2)(fn, T=ev['T'], F=2, t0=t0, acts=tuple(ev['acts']), targets=tuple(ev['targets']),
+                                             labels=tuple(ev['labels']), seed=i)
+                self.files.append(fn)
+                one = katdal.open(fn, **okw)
+                self._single.append(one)
+                self.pristine.append(pristine(one))
+                one.file.close()
+            self.d = katdal.open([self.files[i] for i in self.order], **okw)
+            self.parts = list(self.d.datasets)
+            self.names_in_order = [os.path.basename(getattr(p, 'name', '')) for p in self.parts]
+        except Exception:
+            self.close()
+            raise
+        exp = dict(scan=[], state=[], cscan=[], label=[], tname=[], part=[])
+        s0 = c0 = 0
+        for i, pr in enumerate(self.pristine):
+            exp['scan'] += [x + s0 for x in pr['scan']]
+            exp['cscan'] += [x + c0 for x in pr['cscan']]
+            exp['state'] += pr['state']
+            exp['label'] += pr['label']
+            exp['tname'] += pr['tname']
+            exp['part'] += [i] * pr['T']
+            s0 += len(set(pr['scan']))
+            c0 += len(set(pr['cscan']))
+        self.exp = exp
+        self.nscans, self.ncompscans = s0, c0
+
+    def presel_class(self):
+        return 'none'
+
+    def close(self):
+        for p in getattr(self, 'parts', []):
+            try:
+                p.file.close()
+            except Exception:      # noqa: BLE001
+                pass
+        shutil.rmtree(self.tmp, ignore_errors=True)
+
+
+def run_open_concat(ctx, cseed, n_iter, only=None, note=True, use_model=True):
+    try:
+        cs = OpenConcatSet(cseed)
+    except Exception as e:      # noqa: BLE001
+        ctx.count('open_concat_failed:%s' % type(e).__name__)
+        ctx.extra.setdefault('open_failed', []).append(dict(cid=('openconcat', cseed), error=repr(e)[:200]))
+        return
+    try:
+        sgn = 'concat;via=open;fmt=v%d;parts=%d;' % (cs.fmt, len(cs.parts))
+        case = dict(cid=('openconcat', cseed, n_iter, -1), events=cs.evs, start_offsets=cs.offs, order=cs.order, fmt=cs.fmt)
+        ctx.traces_validated += 1
+        ctx.count('open_concat_fmt=v%d' % cs.fmt)
+        ctx.count('open_concat_parts=%d' % len(cs.parts))
+        # the parts built by katdal.open must be in time order whatever the order of the file names
+        starts = [float(p.start_time.secs) for p in cs.parts]
+        if starts != sorted(starts) or len(starts) != len(cs.files):
+            ctx.disagree(sgn + 'symptom=parts_not_in_time_order', case, starts, sorted(starts),
+                         'the parts of katdal.open([...]) are not in time order')
+        else:
+            check_concat_structure(ctx, cs, case, sgn, use_model=use_model)
+        if note and only is None:
+            ctx.note_case(('openconcat', cseed), nontrivial=cs.nscans >= 3,
+                          sample=dict(events=cs.evs, order=cs.order, fmt=cs.fmt, scans=cs.nscans, compscans=cs.ncompscans))
+        if not use_model:
+            return
+        try:
+            ob = ConcatObservation(cs.d, cs.exp)
+        except AssertionError:
+            ctx.count('real_obs_outside_vocabulary')
+            return
+        rrng = cs.rng
+        for j in range(n_iter):
+            hist = stack_history(rrng, ob, rrng.choice([0, 1, 1, 2]))
+            mode = MODES[rrng.randrange(len(MODES))]
+            if only is None or only == j:
+                run_iter_case(ctx, ob, hist, mode, ('openconcat', cseed, n_iter, j), note=note,
+                              extra=dict(order=cs.order, fmt=cs.fmt), sig_prefix='concat;via=open;')
+    finally:
+        cs.close()
+
+
 def runs_of(l):
     """[(value, first, last+1)] of the maximal runs of equal values"""
     out = []
@@ -1238,6 +1348,9 @@ def run(ctx):
     ncat = ctx.scale(40, 500)
     for _ in range(ncat):
         run_concat(ctx, rng.randrange(1 << 30), 3)
+    # (e) concatenations built by katdal.open([file, file, ...]) from HDF5 files
+    for _ in range(ctx.scale(10, 150)):
+        run_open_concat(ctx, rng.randrange(1 << 30), 2)
     if ctx.tier == 'thorough':
         crosscheck_in_coq(ctx)
 
@@ -1294,6 +1407,10 @@ def replay(ctx, doc):
         have_model = ctx.model_ok or c02.search_without_model(ctx)
         run_concat(ctx, cid[1], cid[2] if len(cid) > 2 else 3, only=cid[3] if len(cid) > 3 else -1,
                    use_model=have_model)
+    elif kind == 'openconcat':
+        have_model = ctx.model_ok or c02.search_without_model(ctx)
+        run_open_concat(ctx, cid[1], cid[2] if len(cid) > 2 else 2, only=cid[3] if len(cid) > 3 else -1,
+                        use_model=have_model)
     elif kind in ('witness', 'witness-seg'):
         for f in ctx.findings:
             run_witness(ctx, f['witness'])
